@@ -248,9 +248,15 @@ func DistMatrix(al align.Alignment, weights []float64, model DistModel, range1Mi
 		return
 	}
 
+	// Undefined distances are replaced by twice the largest defined one; when there
+	// is none (max == 0) they stay undefined instead of becoming 0
+	subst := 2 * max
+	if max == 0 {
+		subst = math.NaN()
+	}
 	for _, sp := range uncompute {
-		outmatrix[sp.i][sp.j] = 2 * max
-		outmatrix[sp.j][sp.i] = 2 * max
+		outmatrix[sp.i][sp.j] = subst
+		outmatrix[sp.j][sp.i] = subst
 	}
 
 	return
